@@ -181,6 +181,23 @@ func (w *world) build() {
 			demonwire.Sub{Cmd: agent.COMMAND_FS, ReqID: reqR1, Body: open},
 			demonwire.Sub{Cmd: agent.BEACON_OUTPUT, ReqID: reqR1, Body: bof}))
 		must(len(ts.Agent(idA).Downloads) == 2, "S3: %d downloads open, want 2", len(ts.Agent(idA).Downloads))
+		// a third download whose local file sits on a full device (environment fault: the file
+		// can be created, every write fails with ENOSPC): its chunks must be answered, not retried for ever
+		if _, err := os.Stat("/dev/full"); err == nil {
+			full := (&demonwire.W{}).I32(agent.DEMON_COMMAND_FS_DOWNLOAD).I32(0).I32(fileFull).I64(4096).WStr(`C:\Users\x\full.bin`).B
+			w.post(demonwire.CallbacksOnly(idA, seam.Key(k), seam.IV(k), demonwire.Sub{Cmd: agent.COMMAND_FS, ReqID: reqR1, Body: full}))
+			for _, d := range ts.Agent(idA).Downloads {
+				if d.FileID == fileFull {
+					d.File.Close()
+					os.Remove(d.LocalFile)
+					must(os.Symlink("/dev/full", d.LocalFile) == nil, "S3: cannot link %s to /dev/full", d.LocalFile)
+					f, err := os.OpenFile(d.LocalFile, os.O_WRONLY, 0)
+					must(err == nil, "S3: cannot open the full device: %v", err)
+					d.File = f
+				}
+			}
+			must(len(ts.Agent(idA).Downloads) == 3, "S3: %d downloads open, want 3", len(ts.Agent(idA).Downloads))
+		}
 	}
 	if w.st == S5 {
 		w.svc = startSvcStub(ts)
